@@ -126,18 +126,30 @@ def gen_policy():
 
 SHARED_ATTRS = ('rules', 'file_rules', '_file_cache', '_policy_dir_mtimes', 'policy_path', 'use_conf',
                 '_need_check_rule', '_informed_no_policy_file')
-RELOAD_FUNCS = ('load_rules', '_load_policy_file', 'set_rules', '_record_file_rules',
-                '_walk_through_policy_directory', '_is_directory_updated')
 
 
-def reload_write_sites(mod):
-    """(function: statement) for every statement in the reload path that assigns to, or calls a
-    mutator on, self.<shared attribute>"""
-    enf = find_class(mod, 'Enforcer')
-    sites = []
-    for fn in enf.body:
-        if not isinstance(fn, ast.FunctionDef) or fn.name not in RELOAD_FUNCS:
+def reload_funcs(enf):
+    """the methods of Enforcer reachable from load_rules (called, or passed on as a bound method)"""
+    methods = {n.name: n for n in enf.body if isinstance(n, ast.FunctionDef)}
+    seen, todo = [], ['load_rules']
+    while todo:
+        name = todo.pop()
+        if name in seen or name not in methods:
             continue
+        seen.append(name)
+        for n in ast.walk(methods[name]):
+            if isinstance(n, ast.Attribute) and isinstance(n.value, ast.Name) and n.value.id in ('self', 'cls') \
+                    and n.attr in methods:
+                todo.append(n.attr)
+    return [methods[n] for n in sorted(seen)]
+
+
+def reload_site_nodes(mod):
+    """(method, statement node, label) for every statement in the reload path that assigns to, or calls a
+    mutator on, self.<shared attribute>; the label is the statement text (where it lives does not matter)"""
+    enf = find_class(mod, 'Enforcer')
+    out = []
+    for fn in reload_funcs(enf):
         for n in ast.walk(fn):
             hit = False
             if isinstance(n, (ast.Assign, ast.AugAssign)):
@@ -155,8 +167,12 @@ def reload_write_sites(mod):
                         recv.value.id == 'self' and recv.attr in SHARED_ATTRS:
                     hit = True
             if hit:
-                sites.append('%s: %s' % (fn.name, ast.unparse(n).splitlines()[0]))
-    return sorted(set(sites))
+                out.append((fn, n, ast.unparse(n).splitlines()[0]))
+    return out
+
+
+def reload_write_sites(mod):
+    return sorted(set(lab for _, _, lab in reload_site_nodes(mod)))
 
 
 MUTATORS = {'append', 'extend', 'insert', 'remove', 'pop', 'clear', 'update', 'setdefault', 'add',
@@ -221,10 +237,10 @@ def frame_sites(mod):
                 targets = n.targets
             for t in targets:
                 if isinstance(t, (ast.Attribute, ast.Subscript)) and root_name(t) in tainted:
-                    sites.append('%s: %s' % (owner, ast.unparse(n).splitlines()[0]))
+                    sites.append(ast.unparse(n).splitlines()[0])
             if isinstance(n, ast.Call) and isinstance(n.func, ast.Attribute) and \
                     n.func.attr in MUTATORS and root_name(n.func.value) in tainted:
-                sites.append('%s: %s' % (owner, ast.unparse(n).splitlines()[0]))
+                sites.append(ast.unparse(n).splitlines()[0])
     for node in mod.body:
         if isinstance(node, ast.FunctionDef):
             visit_fn(node, node.name)
